@@ -751,3 +751,72 @@ def unit_session(seed, n=400):
             v = rng.choice([0, 1, 127, 128, 16383, 16384, 2097151, 2097152, 268435455, 268435456, 4294967295, rng.randint(0, 4294967295)])
             ops.append("bbpacked %d %d" % (v, rng.randint(0, 63)))
     return ops
+
+
+def hs_stray_session(seed):
+    """C05: the challenge ack is lost; before the client's retry, earlier (duplicated / held-back) client handshake datagrams reach the
+    server-side connection through the routing policy; the handshake must still complete once and both ends must agree"""
+    rng = random.Random(seed)
+    s = Session(rng)
+    s.op("reset")
+    magic = rng.choice([(0, 0), (0, 0), (5, 0x15), (8, 0xA5), (32, 0xDEADBEEF)])
+    if magic[0]:
+        s.op("cfg magic %d %d" % magic)
+    if rng.random() < 0.4:
+        s.op("tick %d" % (rng.randint(0, 7200) * 1000000000))
+    s.op("seed %d %d" % (rng.randint(1, 1 << 30), rng.randint(1, 1 << 30)))
+    s.op("listener 10")
+    addr = rng.choice(["1.2.3.4:5", "a", "x" * 63])
+    s.op("conn 1")
+    s.op("connect 1")
+    s.op("onaccept 10 %s 2" % addr)
+    s.note("peers 1 2")
+    s.note("handshake %s" % addr)
+    n_initial = rng.randint(1, 3)
+    for _ in range(n_initial - 1):
+        # extra initial packets (the client's timer fired before the challenge arrived); all but the last are held back
+        s.op("tick 1000000000")
+        s.op("update 1")
+    for _ in range(n_initial - 1):
+        s.op("drop 1")
+    s.op("route 10 %s 1" % addr)       # initial -> challenge
+    s.op("skip 10") if False else None
+    s.ops = [o for o in s.ops if o is not None]
+    s.op("dla 1 10")                   # challenge -> response
+    s.op("route 10 %s 1" % addr)       # response -> accept, ack emitted by the listener
+    s.op("drop 10")                    # ... and lost
+    # stray client handshake datagrams now reach the accepted connection
+    for _ in range(rng.randint(1, 3)):
+        r = rng.random()
+        if r < 0.6:
+            s.op("routeat 10 %s 1 -%d" % (addr, rng.randint(1, n_initial + 1)))
+        else:
+            s.op("craft 2 1 -%d -1 %d -1 %d -1 -1 -1 %d" % (rng.randint(1, n_initial + 1), rng.choice([0, 1, 2, 3]), rng.randint(0, 255), rng.choice([9, 16])))
+        if rng.random() < 0.7:
+            s.op("dla 1 2")            # whatever the server-side connection answered
+    for rnd in range(8):
+        s.op("tick %d" % (rng.choice([500, 1000, 1100]) * 1000000))
+        s.op("update 1")
+        s.op("update 2")
+        for _ in range(3):
+            s.op("route 10 %s 1" % addr)
+        s.op("dla 1 2")
+        s.op("dla 1 10")
+        if rnd >= 3:
+            s.op("flush 1")
+            s.op("flush 2")
+    s.note("settled")
+    s.op("send 1 0 9 0 1 30 %d" % s.next_pseed())
+    s.op("send 2 0 9 0 1 40 %d" % s.next_pseed())
+    for _ in range(4):
+        s.op("tick 250000000")
+        s.op("flush 1")
+        s.op("route 10 %s 1" % addr)
+        s.op("route 10 %s 1" % addr)
+        s.op("flush 2")
+        s.op("dla 1 2")
+        s.op("dla 1 10")
+    s.note("drained")
+    s.op("closed 1")
+    s.op("closed 2")
+    return s.ops
